@@ -44,12 +44,15 @@ var leafSrc = map[string][]string{
 	"td": {"Verif::Pair", "Verif::Ints", "Verif::Unit"},
 }
 
-// object type definitions no loader knows (implementation only: they travel as Pcore::ObjectType instances and are
-// registered by the deserializer)
+// object type definitions no loader knows: they travel as Pcore::ObjectType instances (the init hash is written into the
+// op for the model) and are registered by the deserializer
 var tdefSrc = []string{
 	`Object[{name => 'Verif::Fresh', attributes => {'z' => Integer}}]`,
 	`Object[{attributes => {'z' => Integer}}]`,
 	`Object[{name => 'Verif::Fresh2', parent => Verif::Pair, attributes => {'c' => {'type' => String, 'value' => 'x'}}}]`,
+	`Object[{name => 'Verif::Fresh3', attributes => {'a' => {'type' => Array[Integer], 'value' => [1, 2]}, 'b' => {'type' => Optional[String], 'value' => undef}}, equality => ['a']}]`,
+	`Object[{name => 'Verif::Fresh4', attributes => {'k' => {'type' => Integer, 'kind' => 'constant', 'value' => 3}, 'n' => Verif::Ints}}]`,
+	`Object[{name => 'Verif::Fresh5', attributes => {'h' => {'type' => Hash[String, Integer], 'value' => {'x' => 1}}}, equality_include_type => false}]`,
 }
 
 // further sources for the stand-alone codec check
@@ -100,6 +103,10 @@ func (g *vgen) leaf() *node {
 	k := leafKinds[g.r.Intn(len(leafKinds))]
 	src := leafSrc[k]
 	return g.keep(&node{kind: "l", id: g.id(), lk: k, s: src[g.r.Intn(len(src))]})
+}
+
+func (g *vgen) tdef() *node {
+	return g.keep(&node{kind: "tdef", id: g.id(), s: tdefSrc[g.r.Intn(len(tdefSrc))]})
 }
 
 func (g *vgen) bin() *node {
@@ -169,6 +176,9 @@ func (g *vgen) value(depth int, key bool) *node {
 	case 8:
 		if key {
 			return g.scalar()
+		}
+		if g.r.Intn(5) == 0 {
+			return g.tdef()
 		}
 		return g.object(depth)
 	default:
@@ -244,7 +254,7 @@ func hardKey(n *node, seen map[*node]bool) bool {
 
 // implOnly: the value holds something the model does not cover
 func implOnly(n *node) bool {
-	if n.kind == "tdef" {
+	if n.kind == "tdef" && n.init == nil {
 		return true
 	}
 	for _, k := range n.kids {
@@ -287,7 +297,13 @@ func (n *node) write(sb *strings.Builder, seen map[*node]bool) {
 	case "l":
 		sb.WriteString("(l " + id + " " + n.lk + " " + hx(n.s) + " " + hx(n.disp) + ")")
 	case "tdef":
-		sb.WriteString("(tdef " + id + " " + hx(n.s) + " " + hx(n.disp) + ")")
+		if n.init != nil {
+			sb.WriteString("(tdef " + id + " " + hx(n.s) + " " + hx(n.disp) + " ")
+			n.init.write(sb, map[*node]bool{})
+		} else {
+			sb.WriteString("(tdefx " + id + " " + hx(n.s) + " " + hx(n.disp))
+		}
+		sb.WriteByte(')')
 	case "sn", "a":
 		sb.WriteString("(" + n.kind + " " + id)
 		for _, k := range n.kids {
@@ -328,6 +344,15 @@ func finish(c px.Context, root *node) (text string, ok bool) {
 	for n, v := range b.memo {
 		if n.kind == "l" || n.kind == "o" || n.kind == "tdef" {
 			n.disp = v.String()
+		}
+		if n.kind == "tdef" {
+			next := int64(1000)
+			n.init = nil
+			if ot, ok := v.(px.ObjectType); ok {
+				if tree, ok := valueNode(ot.(px.PuppetObject).InitHash(), &next, freshType(c)); ok {
+					n.init = tree
+				}
+			}
 		}
 	}
 	var sb strings.Builder
@@ -438,7 +463,7 @@ func fixedValues() []string {
 		"(a 1 (l 2 td " + h("Verif::Pair") + " x) (= 2) " + s("Verif::Pair") + " (l 3 td " + h("Verif::Ints") + " x) " + s("Type") + " (l 4 ty " + h("String") + " x))",
 	}
 	for _, t := range tdefSrc {
-		out = append(out, "(tdef 1 "+h(t)+" x)", "(a 1 (tdef 2 "+h(t)+" x) (= 2))")
+		out = append(out, "(tdefx 1 "+h(t)+" x)", "(a 1 (tdefx 2 "+h(t)+" x) (= 2) "+s("Pcore::ObjectType")+" "+s("attributes")+")")
 	}
 	i := 0
 	for _, k := range leafKinds {
